@@ -107,3 +107,12 @@ Definition get_ok (natural : bool) (c : bool * text * list (text * ty) * text * 
 
 (** natural-key order as a three-valued answer: -1, 0, 1 *)
 Definition cmp_z (c : comparison) : Z := match c with Lt => -1 | Eq => 0 | Gt => 1 end.
+
+(** two documents with pairwise distinct keys hold the same entries *)
+Definition doc_subset (a b : list (text * list text)) : bool :=
+  forallb (fun kv => match aget b (fst kv) with
+                     | Some v => list_eqb text_eqb v (snd kv)
+                     | None => false
+                     end) a.
+Definition perm_docb (a b : list (text * list text)) : bool :=
+  (Z.of_nat (length a) =? Z.of_nat (length b)) && doc_subset a b && doc_subset b a.
